@@ -362,6 +362,61 @@ func partC04(a *hcli.Args, rep *report.Report, univName string, u *schema.Univer
 	s2.Class(fmt.Sprintf("sequences<=%d", LJ))
 	s2.Class("completed")
 
+	// 2b. readers configured with exclusion specs: the scope bookkeeping sees every key, including
+	// keys spelled like patch markers and wildcards
+	sx := rep.S("readers-with-exclusions")
+	xsigma := []string{"(", ")", ",", ":", "a", "$set", "$delete", "*", "List("}
+	xtoks := []string{"{", "}", "[", "]", ":", ",", `"a"`, `"$set"`, `"$delete"`, `"*"`, "1"}
+	xspecs := [][]string{{"a/*/a"}, {"*/*/a"}, {"$set/a"}, {"a"}, {"a/*/a", "a/a/b"}}
+	LX := 5
+	sx.Bounds = fmt.Sprintf("all ROR2 strings of <=%d symbols over %v and all JSON sequences of <=%d tokens over %v x readers with excluded fields %v (leading scope 0 and 1) x map / record / array reading programs", LX, xsigma, LX, xtoks, xspecs)
+	mapProgs := []program{}
+	for _, p := range progs {
+		if strings.Contains(p.name, "Map") || strings.Contains(p.name, "Record") || strings.Contains(p.name, "Union") || p.name == "Skip" || p.name == "ReadInterface" || p.name == "RawRecord" {
+			mapProgs = append(mapProgs, p)
+		}
+	}
+	for _, lang := range []string{"ror2", "json"} {
+		alpha := xsigma
+		if lang == "json" {
+			alpha = xtoks
+		}
+		nx := 0
+		enumStrings(alpha, LX, a.Shard, a.Shards, func(str string) bool {
+			nx++
+			if nx%1024 == 0 && a.Expired() {
+				sx.Exhaustive = false
+				rep.Cap("readers-with-exclusions: internal deadline")
+				return false
+			}
+			current.Store(lang + "+excl " + str)
+			sx.States++
+			for si, sp := range xspecs {
+				ps := restlicodec.NewPathSpec(sp...)
+				for _, lead := range []int{0, 1} {
+					lead := lead
+					mk := func() (restlicodec.Reader, error) {
+						if lang == "json" {
+							return restlicodec.NewJsonReaderWithExcludedFields([]byte(str), ps, lead)
+						}
+						return restlicodec.NewRor2ReaderWithExcludedFields(str, ps, lead)
+					}
+					for _, p := range mapProgs {
+						kind, site, detail := runProgram(mk, p)
+						sx.Evaluations++
+						sx.Transitions++
+						if kind != "" {
+							fail(sx, "readers-with-exclusions", fmt.Sprintf("%s-reader[spec#%d,lead=%d]", lang, si, lead), p, str, kind, site, detail)
+						}
+					}
+				}
+			}
+			return true
+		})
+	}
+	sx.Traces = sx.States
+	sx.Class("completed")
+
 	// 3. every truncation / single-byte edit of valid encodings, fed to the schema's own unmarshaler
 	s3 := rep.S("mutated-encodings")
 	subst := []byte{'(', ')', ',', ':', '\'', '%', 'L', '{', '}', '[', ']', '"', '\\', 0x00, 0xff, ' ', '&', '=', '+', 'e', '-', '9'}
